@@ -14,17 +14,59 @@ TEXT = {
         "note": "trusted: num-bigint and the 120-line schoolbook tower model; prime-field conversions (C01). Sampled except toy towers.",
         "technique": REF + " (schoolbook tower model over num-bigint)",
     },
+    "C03": {
+        "text": "Eleven toy curves (short Weierstrass with a = 0 / a != 0, cofactor 1, 2, 3, 4 incl. 2-torsion points, over F_p and over F_{17^2}; twisted Edwards complete with cofactor 4 and 8, and one with an incomplete law) are enumerated oracle-side and ALL ordered pairs of points are pushed through every operator form (proj/affine add, sub, mixed, +=, double, neg, Sum, conversions, normalize_batch, cross-type ==) in Z=1, randomly rescaled and non-canonical-identity representations; results are decoded from raw X,Y,Z / X,Y,T,Z by the oracle and compared with the textbook affine law computed in plain u64 arithmetic. All 47 shipped SW/TE configurations are sampled over relation classes (P=Q, P=-Q, identity, points outside the subgroup, 2-torsion) against the same law over C01/C02-checked field operations.",
+        "design_ref": "DESIGN.md §4 C03",
+        "note": "exhaustive only on the toy curves (listed in the evidence); shipped curves are sampled. Trusted: the 60-line textbook law and u64 arithmetic.",
+        "technique": REF + " (textbook affine group law; exhaustive on toy curves)",
+    },
+    "C04": {
+        "text": "Every scalar-multiplication path (Affine/Projective::mul_bigint, mul_bits_be, * and *= ScalarField, sw_double_and_add_*, config-level mul_affine/mul_projective, WnafContext for w = 2..10 with fresh/exact/oversized/undersized tables, BatchMulPreprocessing with table hints 0..2^16 and scalar sizes bits..64N, batch_mul, and for the 11 shipped GLV configurations scalar_decomposition identity + size bound, endomorphism eigenvalue, glv_mul_projective/affine) is compared with a reference MSB-first double-and-add over the textbook affine law. Toy curves: every point x k in [0,3r] (quick: every 7th plus structural) encoded with 1..3 limbs; shipped curves: k in {0,1,2,r-1,(r±1)/2,r,r+1,2^j,2^j-1,all-ones limbs,lambda±1,lattice entries,uniform,>= r,leading zero limbs} on identity/generator/random/-P.",
+        "design_ref": "DESIGN.md §4 C04",
+        "note": "subgroup points for projective paths (see assumptions); sampled on shipped curves.",
+        "technique": REF + " (reference double-and-add over the textbook law)",
+    },
+    "C05": {
+        "text": "msm, msm_unchecked, msm_bigint, msm_chunks and (through the verif-hooks feature) the private plain-bucket and signed-digit kernels are run on 11 toy curves, 9 shipped curve groups and 3 pairing target groups for lengths 0,1,2,3,31,32,33,63,64,65,127,128,129,1000 (thorough: 4096, 16384), scalar patterns (all 0 / 1 / r-1, alternating, top-window carry, raw integers in [r,2^bits), uniform) and base patterns (all equal, identity entries, P/-P); mismatched lengths must be reported (checked) or truncated (unchecked). ChunkedPippenger and HashMapPippenger are driven with random add*/finalize histories and buffer sizes 1..n+1 against a running-sum model with required classes (flush inside add, finalize on empty/non-empty buffer, merged repeated base). make_digits is checked for w = 1..16 (reconstruction, digit range, digit count).",
+        "design_ref": "DESIGN.md §4 C05",
+        "note": "histories are sequential (the accumulators have no concurrency); shapes sampled.",
+        "technique": REF + " (naive-sum model; history + executable model for the accumulators; hook-exposed kernels)",
+    },
     "C06": {
         "text": "Every shipped pairing engine - BLS12 with M- and D-twist, BN, BW6 x2, MNT4 x2, MNT6 x2, test-curves BLS12-381, plus cp6_782's own engine - is run on generator, random-subgroup and identity points with scalars from {0,1,2,r-1,uniform}. Bilinearity, additivity in both arguments, non-degeneracy, e(.,0)=e(0,.)=1, output^r=1, prepared versus unprepared across nine input forms, and multi-pairings of lengths 0,1,2,3,4,5,8,9 with identity entries at every position are checked as target-group equalities whose right-hand sides come from different code than the left (Field::pow and a harness square-and-multiply with integer exponents from num-bigint, field mul for products, oracle-side 1 for identity arguments; no golden values). PairingOutput group operations and Valid/serialization are compared with target-field operations. Required observation classes (each engine and twist type, identity in G1/G2/both, a*b >= r, chunking remainder, identity inside a multi-pairing) make an empty run inconclusive.",
         "design_ref": "DESIGN.md §4 C06",
         "note": "relations only (no golden pairing values): a defect that keeps every checked relation intact (e.g. a consistent change of the pairing by an automorphism) is not observable; inputs sampled.",
         "technique": REF + " (algebraic relations with independently computed right-hand sides)",
     },
+    "C07": {
+        "text": "Every constructible radix-2, mixed-radix and general domain of 16 fields (two-adicity 2..47, q in {3,5,7}) up to 2^11 (thorough 2^14) elements is transformed for input lengths on both sides of the degree-aware threshold, with subgroup and four kinds of coset offsets; transforms are compared with Horner evaluation at offset*g^i, inverse transforms by re-evaluation, group-valued coefficients included. Construction is compared with a brute-force minimal size for every request 0..1100 and around every family size; the generator order is checked exactly; element/elements/vanishing/Lagrange/filter/reindex are compared with their product-formula definitions, also at points of the domain.",
+        "design_ref": "DESIGN.md §4 C07",
+        "note": "oracles: Horner / naive products over C01-checked field ops, written without ark-poly. Sizes bounded as stated.",
+        "technique": REF + " (Horner / O(n^2) naive oracles)",
+    },
+    "C08": {
+        "text": "Every dense, sparse, mixed and evaluation-form operator is run on operand pairs from relation classes (equal, negated, cancelling leading terms, zero, constants, sparse above/below/equal the dense degree, longer than the domain) over 7 fields; results are compared coefficient-wise with schoolbook arithmetic and long division on canonical vectors, and checked for canonical form, degree() totality and == with the canonical model. 32 required observation classes cover cancellation in each of the 13 additive operators, f = 0/1 in scaled add, coset vanishing-polynomial operations and the dividend-length classes.",
+        "design_ref": "DESIGN.md §4 C08",
+        "note": "oracle: schoolbook polynomial arithmetic in the harness; sampled.",
+        "technique": REF + " (schoolbook polynomial model, structural + semantic checks)",
+    },
     "C11": {
         "text": "sqrt and legendre are executed for all 204 prime-field configurations (tiny ones exhaustively) and for every shipped extension with a square-root algorithm (6 Fp2, 2 Fp4, 6 Fp3, 5 Fp6 2-over-3) plus four toy towers exhaustively. Elements: 0, 1, -1, generator^odd, squares, manufactured non-residues, base-field and subfield elements by residuosity, and elements of exact order 2^j for every j up to the two-adicity (Tonelli-Shanks worst cases). Oracle: Euler criterion by num-bigint modpow (towers: quadratic character of the norm chain, itself cross-checked against x^((q-1)/2) in the schoolbook model) and squaring of the returned root in the model; Some/None must match residuosity exactly and sqrt(0)=0.",
         "design_ref": "DESIGN.md §4 C11",
         "note": "trusted: num-bigint, the schoolbook tower model; sampled except tiny fields/toy towers.",
         "technique": REF + " (Euler-criterion oracle, root squared in the model)",
+    },
+    "C13": {
+        "text": "The real DefaultFieldHasher, SWUMap, WBMap, Elligator2Map and MapToCurveBasedHasher are run on ~16 000 (quick) / ~157 000 (thorough) events: messages and tags (tags longer than 255 bytes, every output length up to the 255*b_len limit, block-boundary message lengths), seven hash functions, ten suites/configurations (BLS12-381 G1/G2 from both crates, BLS12-377 G1/G2, bandersnatch Elligator2, three toy configurations enumerated over the whole field), structural, crafted and uniform field elements (u = 0, zeros of Z^2u^4+Zu^2, g(x1) = 0, rational isogeny-kernel points solved for offline). Every result is checked in-process (on curve, sgn0 rule, r*P = 0, determinism, totality) and recomputed stage by stage by an independent RFC 9380 implementation in Python (hashlib + integers) over the recorded event log; that reference first validates itself against the published RFC vectors on every run.",
+        "design_ref": "DESIGN.md §4 C13",
+        "note": "trusted: Python hashlib/ints reference (self-validated against RFC vectors each run); isogeny/curve constants are exported from the repository (C16 checks their defining equations). Sampled except toy configurations.",
+        "technique": REF + " + offline checker over the recorded event log (independent RFC 9380 implementation)",
+    },
+    "C17": {
+        "text": "Dense and sparse multilinear extensions on 0..8 (thorough 12) variables are compared with the direct sum over the hypercube at every Boolean point (n <= 6) and at non-Boolean points; fix_variables for every k, every valid relabel window, concatenation and all operators are compared with the transformation applied to the plain table; dense and sparse forms are cross-compared. Sparse multivariate polynomials built from term lists with duplicates, zero coefficients and unordered or repeated variables are compared with a map-of-monomials model (canonical form, degree, values, operators); SparseTerm ordering is checked to be the documented total order on all triples of a 60-term pool.",
+        "design_ref": "DESIGN.md §4 C17",
+        "note": "oracle: hypercube sums and index-bit manipulation on plain vectors; sampled tables/points, all windows.",
+        "technique": REF + " (sum-over-hypercube / map-of-monomials models)",
     },
     "C15": {
         "text": "Every BigInt<N> operation (N=1..13) is executed on edge-biased and uniform operands and compared with num-bigint, including carry/borrow flags, all shift classes, both endiannesses, parsing/printing and the three signed-digit recodings (reconstruction + digit constraints); recodings are exhaustive over 0..2^16 and the mirrored top-of-range values. Held-on-observed-executions, with required observation classes (carry out of the top limb etc.) that make an empty run inconclusive.",
